@@ -214,7 +214,11 @@ func (e *Enc) load(a *Addr) Term {
 		return Select(arr, a.Base)
 	case "elem":
 		arr := e.heapGet(st, e.p.elemKey(a.Elem))
-		return Select(Select(arr, a.Base), a.Idx)
+		r := Select(Select(arr, a.Base), a.Idx)
+		if _, ok := e.p.Contracts.NonNil[e.p.elemKey(a.Elem)]; ok {
+			e.assume(Ne(r, IntLit(0)))
+		}
+		return r
 	case "global":
 		return e.heapGet(st, a.Key)
 	case "local":
@@ -464,6 +468,11 @@ func (e *Enc) encodeInstr(in ssa.Instruction) {
 		ln := e.termOf(x.Len)
 		cp := e.termOf(x.Cap)
 		e.oblige("makeslice", "", x.Pos(), And(Ge(ln, IntLit(0)), Ge(cp, ln)), nil, "make: 0 <= len <= cap")
+		if st, ok := x.Type().Underlying().(*types.Slice); ok {
+			if props, ok := e.p.Contracts.NonNil[e.p.elemKey(st.Elem())]; ok {
+				e.oblige("nonnil", "make/"+e.p.elemKey(st.Elem()), x.Pos(), Eq(ln, IntLit(0)), props, "a list of this kind is made empty (its elements are never nil)")
+			}
+		}
 		r := e.newRef("arr")
 		e.bind(x, SliceMk(r, IntLit(0), ln, cp))
 	case *ssa.MapUpdate:
@@ -577,7 +586,8 @@ func (e *Enc) encodeFieldAddr(x *ssa.FieldAddr) {
 		e.vals[x] = Val{Addr: &Addr{Kind: "sub", Outer: outer, Struct: st, Field: x.Field, Elem: ft}, Typ: x.Type()}
 		return
 	}
-	// nil dereferences are not an obligation class (DESIGN 3.4-1): the dereferenced pointer is assumed non-nil
+	// a pointer that may be nil by origin must be shown non-nil; any other dereferenced pointer is assumed non-nil
+	e.nilDerefObligation(x.X, base.T, x.Pos(), "field "+st.Underlying().(*types.Struct).Field(x.Field).Name())
 	e.assume(Ne(base.T, IntLit(0)))
 	e.vals[x] = Val{Addr: &Addr{Kind: "field", Base: base.T, Struct: st, Field: x.Field, Elem: ft}, Typ: x.Type()}
 }
@@ -626,6 +636,9 @@ func (e *Enc) encodeLookup(x *ssa.Lookup) {
 		v := e.fresh("mapval", e.sortOf(mt.Elem()))
 		e.assert(Eq(v, Ite(And(Ne(m, IntLit(0)), has), val, e.zero(mt.Elem()))))
 		e.assume(e.typeInv(v, mt.Elem(), e.cur.now))
+		if _, ok := e.p.Contracts.NonNil[mapValKey(mk)]; ok {
+			e.assume(Implies(And(Ne(m, IntLit(0)), has), Ne(val, IntLit(0))))
+		}
 		if x.CommaOk {
 			okc := e.fresh("mapok", SBool)
 			e.assert(Eq(okc, And(Ne(m, IntLit(0)), has)))
@@ -650,6 +663,9 @@ func (e *Enc) encodeMapUpdate(x *ssa.MapUpdate) {
 	v := e.termOf(x.Value)
 	// writes to a nil map belong to the nil-dereference class (assumed away, DESIGN 3.4-1)
 	e.assume(Ne(m, IntLit(0)))
+	if props, ok := e.p.Contracts.NonNil[mapValKey(e.p.mapKey(mt))]; ok {
+		e.oblige("nonnil", "mapvalue/"+e.p.mapKey(mt), x.Pos(), Ne(v, IntLit(0)), props, "a pointer stored as a value of this kind of map is not nil")
+	}
 	e.frameObligation(x, "mapupdate", e.p.mapKey(mt), m, x.Pos())
 	e.writersObligation(e.p.mapKey(mt), m, x.Pos())
 	if e.fc != nil {
@@ -806,6 +822,11 @@ func (e *Enc) encodeStore(x *ssa.Store) {
 	_ = valT
 	if av.Addr.Kind == "field" && e.prefix == "" {
 		e.directStores[e.p.fieldKey(av.Addr.Struct, av.Addr.Field)] = true
+	}
+	if av.Addr.Kind == "elem" {
+		if props, ok := e.p.Contracts.NonNil[e.p.elemKey(av.Addr.Elem)]; ok {
+			e.oblige("nonnil", "element/"+e.p.elemKey(av.Addr.Elem), x.Pos(), Ne(e.termOf(x.Val), IntLit(0)), props, "a pointer stored as an element of this kind of list is not nil")
+		}
 	}
 	e.guardObligation(av.Addr, x.Pos(), "write")
 	e.monotoneObligation(av.Addr, e.termOf(x.Val), x.Pos())
@@ -1178,6 +1199,9 @@ func (e *Enc) boxFns(t types.Type) (box, unbox string, srt Sort, id int) {
 }
 
 func (e *Enc) encodeMakeInterface(x *ssa.MakeInterface) {
+	if props, ok := e.p.Contracts.NonNil["B|"+e.p.relTypeString(x.X.Type())]; ok {
+		e.oblige("nonnil", "box/"+e.p.relTypeString(x.X.Type()), x.Pos(), Ne(e.termOf(x.X), IntLit(0)), props, "a pointer of this type is never nil when it is put into an interface")
+	}
 	v := e.termOf(x.X)
 	e.bind(x, e.boxValue(v, x.X.Type()))
 }
@@ -1217,6 +1241,25 @@ func (e *Enc) encodeTypeAssert(x *ssa.TypeAssert) {
 		_, unbox, srt, id := e.boxFns(at)
 		okT = Eq(DynType(v), IntLit(int64(id)))
 		val = App(srt, unbox, v)
+	}
+	if props, ok := e.p.Contracts.NonNil["B|"+e.p.relTypeString(at)]; ok && !types.IsInterface(at) {
+		_ = props
+		e.assume(Implies(okT, Ne(val, IntLit(0))))
+	}
+	if !types.IsInterface(at) && isPointerLike(at) {
+		// lastassert("T"): the value of the latest assertion to pointer type T on this path
+		e.cur.heap["lastta|"+e.p.relTypeString(at)] = e.define("lastta", val)
+		// ... and what its fields held at that moment: lastassert("T", "field")
+		if pt, ok := at.Underlying().(*types.Pointer); ok {
+			if st, ok := pt.Elem().Underlying().(*types.Struct); ok {
+				if _, local, _ := e.p.structSortName(pt.Elem()); local {
+					for i := 0; i < st.NumFields(); i++ {
+						fk := e.p.fieldKey(pt.Elem(), i)
+						e.cur.heap["lasttaf|"+e.p.relTypeString(at)+"|"+st.Field(i).Name()] = e.define("lasttaf", Select(e.heapGet(e.cur, fk), val))
+					}
+				}
+			}
+		}
 	}
 	if x.CommaOk {
 		okc := e.fresh("ta_ok", SBool)
